@@ -9,6 +9,7 @@ open AbtemVerif AbtemVerif.Proto AbtemVerif.StructFactor AbtemVerif.Bloch
                                                                        -> `ok re,im;…` (row-major) | `err <kind>`
      `dyn <n> <C row-major: float bits re,im;…> <v bits list> <M bits list> <wavelength bits> <t bits list> <i0>`
                                                                        -> `ok re,im;…` (thickness-major, float bits)
+     `ens <width> <positions per member-row: a,b;c,d;…> <values per member-row>`  -> `ok <rows>`   eager ensemble assembly
    hkls: `a,b,c;a,b,c` (`~` = none); anything else -> `bad-op` -/
 def triple? {α} (f : String → Option α) (s : String) : Option (α × α × α) :=
   match s.splitOn "," with
@@ -56,6 +57,12 @@ def handle : List String → String
       let out := dynScatter C v.toArray m.toArray wl ts i0
       "ok " ++ ";".intercalate (out.flatten.map fun z => s!"{showFloatBits z.re},{showFloatBits z.im}")
     | _, _, _, _, _, _, _ => "bad-op"
+  | ["ens", w, pos, vals] =>
+    match parseNat? w, parseListList? parseNat? pos, parseListList? parseInt? vals with
+    | some w, some ps, some vs =>
+      if ps.length ≠ vs.length then "bad-op" else
+      s!"ok {showListList showInt (assembleEnsemble (0 : Int) w (ps.zip vs))}"
+    | _, _, _ => "bad-op"
   | _ => "bad-op"
 
 def main : IO Unit := serve handle
